@@ -283,6 +283,7 @@ func runC18(cfg *config, res *monitor.Result) {
 	}
 	// well-known types as root messages
 	evals += runC18WKT(cfg, res, classes)
+	evals += runC18GogoImportedEnum(cfg, res, classes)
 	// nil handling
 	if cfg.shard == 0 {
 		evals += 2
